@@ -24,6 +24,9 @@ pub enum Scen {
     DoubleSpend,
     /// channel 1 advanced, funding and holder commitment 1 confirmed in the base chain
     Unilateral,
+    /// as Unilateral, and the sweep of our output, the first-level and the second-level HTLC
+    /// spends are confirmed in three further blocks that can be disconnected again
+    Swept,
 }
 
 #[derive(Clone, Debug)]
@@ -121,22 +124,22 @@ impl NodeModel {
         }
         match t {
             Tx::Fund => {
-                if spent(&f.wallet_in) || matches!(self.cfg.scen, Scen::Mutual | Scen::Unilateral) {
+                if spent(&f.wallet_in) || matches!(self.cfg.scen, Scen::Mutual | Scen::Unilateral | Scen::Swept) {
                     None
                 } else {
                     Some(f.funding_tx.clone())
                 }
             }
             Tx::DoubleSpend => {
-                if spent(&f.wallet_in) || matches!(self.cfg.scen, Scen::Mutual | Scen::Unilateral) {
+                if spent(&f.wallet_in) || matches!(self.cfg.scen, Scen::Mutual | Scen::Unilateral | Scen::Swept) {
                     None
                 } else {
                     Some(simple_tx(vec![f.wallet_in], vec![(CHANNEL_VALUE, unrelated_script(1))], 7))
                 }
             }
             Tx::Mutual => {
-                let funded = get(Tx::Fund).is_some() || matches!(self.cfg.scen, Scen::Unilateral | Scen::Mutual);
-                if !funded || spent(&f.setup.funding_outpoint) || self.cfg.scen == Scen::Unilateral {
+                let funded = get(Tx::Fund).is_some() || matches!(self.cfg.scen, Scen::Unilateral | Scen::Mutual | Scen::Swept);
+                if !funded || spent(&f.setup.funding_outpoint) || matches!(self.cfg.scen, Scen::Unilateral | Scen::Swept) {
                     return None;
                 }
                 let mut tx = simple_tx(vec![f.setup.funding_outpoint], vec![(f.c0.to_holder - 500, unrelated_script(2))], 0);
@@ -144,7 +147,7 @@ impl NodeModel {
                 Some(tx)
             }
             Tx::Sweep | Tx::H1 => {
-                if self.cfg.scen != Scen::Unilateral {
+                if !matches!(self.cfg.scen, Scen::Unilateral | Scen::Swept) {
                     return None;
                 }
                 let hc = f.hc1.clone()?;
@@ -194,7 +197,7 @@ impl NodeModel {
         }
         let ds = s.depth(Tx::DoubleSpend) >= 100 && s.conf_height(Tx::Fund).is_none();
         let mutual = s.depth(Tx::Mutual) >= 100;
-        let uni = if self.cfg.scen == Scen::Unilateral {
+        let uni = if matches!(self.cfg.scen, Scen::Unilateral | Scen::Swept) {
             // all of the node's outputs swept: our output, both HTLC outputs and the second level
             let last = [Tx::Sweep, Tx::H1, Tx::H2].iter().map(|t| s.conf_height(*t)).collect::<Vec<_>>();
             if last.iter().all(|h| h.is_some()) {
@@ -278,7 +281,7 @@ impl Model for NodeModel {
             }
             s.f = Some(f);
         }
-        if self.cfg.scen == Scen::Unilateral {
+        if matches!(self.cfg.scen, Scen::Unilateral | Scen::Swept) {
             // channel 1 funded, advanced, funding and the holder commitment confirmed
             let f = fund_channel(s.w(), 1, false, true);
             s.ghost.ready.insert(1, true);
@@ -289,6 +292,12 @@ impl Model for NodeModel {
             assert!(s.w().connect(&mut chain, b, Delivery::Compact).is_ok());
             s.chain = SimChain::new(chain.tip(), chain.height());
             s.f = Some(f);
+            if self.cfg.scen == Scen::Swept {
+                for (i, t) in [Tx::Sweep, Tx::H1, Tx::H2].iter().enumerate() {
+                    let r = self.connect_block(&mut s, &[*t], 40 + i as u32);
+                    assert!(r.is_ok(), "scenario block {:?}: {}", t, r.tag());
+                }
+            }
         }
         s
     }
@@ -324,7 +333,7 @@ impl Model for NodeModel {
                     }
                 }
             }
-            Scen::Unilateral => {
+            Scen::Unilateral | Scen::Swept => {
                 v.push(Op::Forget(1));
                 v.push(Op::New(1));
                 for t in [Tx::Sweep, Tx::H1, Tx::H2] {
@@ -499,6 +508,7 @@ pub fn configs(tier: Tier, monitors: bool) -> Vec<NodeCfg> {
             NodeCfg { scen: Scen::Mutual, max_ops: 5, monitors },
             NodeCfg { scen: Scen::DoubleSpend, max_ops: 5, monitors },
             NodeCfg { scen: Scen::Lifecycle, max_ops: 4, monitors },
+            NodeCfg { scen: Scen::Swept, max_ops: 5, monitors },
         ],
         (Tier::Quick, true) => vec![
             NodeCfg { scen: Scen::Lifecycle, max_ops: 4, monitors },
@@ -509,6 +519,7 @@ pub fn configs(tier: Tier, monitors: bool) -> Vec<NodeCfg> {
             NodeCfg { scen: Scen::Mutual, max_ops: 7, monitors },
             NodeCfg { scen: Scen::DoubleSpend, max_ops: 7, monitors },
             NodeCfg { scen: Scen::Unilateral, max_ops: 7, monitors },
+            NodeCfg { scen: Scen::Swept, max_ops: 6, monitors },
         ],
     }
 }
@@ -518,8 +529,11 @@ pub fn explore(tier: Tier, monitors: bool, wall_s: f64) -> NodeRun {
     let mut stats = BfsStats { closed: true, ..Default::default() };
     let mut found = vec![];
     let mut models = vec![];
-    let per = wall_s / cfgs.len() as f64;
-    for cfg in cfgs {
+    let t0 = std::time::Instant::now();
+    let n = cfgs.len();
+    for (i, cfg) in cfgs.into_iter().enumerate() {
+        // what earlier scenarios did not use is available to the later ones
+        let per = (wall_s - t0.elapsed().as_secs_f64()).max(1.0) / (n - i) as f64;
         let m = NodeModel { cfg };
         let lim = Limits { max_depth: m.cfg.max_ops, max_states: 2_000_000, wall_s: per };
         let st = bfs(&m, &lim, &mut found);
